@@ -167,6 +167,32 @@ func c10SharedOne(r *mon.Run, cs c10SharedCase) {
 		return fmt.Sprintf("shared types: %s ; %s ; withheld %v x%d then complete x%d", what, mon.Trunc(projectKey(pt), 300), cs.Drop, cs.Fail, cs.OK)
 	}
 	types, rules := c10SharedObjs(pt)
+	// the AST of every type object, taken before any root uses it, is a returned value: it must still read the
+	// same at the end (the OpenAPI listing of a root walks these very types)
+	type keptAST struct {
+		name string
+		ast  schema.ASTNode
+		snap string
+	}
+	var kept []keptAST
+	for i, t := range types {
+		if tt, ok := t.(*jschema.JSchema); ok {
+			mon.Guard(func() {
+				if a, err := tt.GetAST(); err == nil {
+					b, _ := stdjson.Marshal(a)
+					kept = append(kept, keptAST{pt.Types[i].Name, a, string(b)})
+				}
+			})
+		}
+	}
+	defer func() {
+		for _, k := range kept {
+			if b, _ := stdjson.Marshal(k.ast); string(b) != k.snap {
+				r.Violate("mutated-after-return", key("AST of a type object"), fmt.Sprintf("the AST that GetAST() of the type %s returned before the roots were built reads differently afterwards: %s", k.name, c07FirstDiff(k.snap, string(b))), cs)
+				return
+			}
+		}
+	}()
 	for _, i := range cs.Standalone {
 		if tt, ok := types[i].(*jschema.JSchema); ok {
 			mon.Guard(func() { _ = tt.Check() })
